@@ -72,7 +72,7 @@ def carrier_api():
         m('GetThing', 'get', sigs=['name,count']),
         m('DeleteThing', 'delete', out='google.protobuf.Empty', sigs=['name']),
         m('UpdateThing', 'update', sigs=['inner.name,tags', 'labels,kind,class,flag,opt_request_id']),
-        m('CreateThing', 'create', sigs=['name']),
+        m('CreateThing', 'create', sigs=['name,request_id']),
         # (an EMPTY method_signature - 'callable without flattened arguments' - stands before the others and ends nothing)
         m('TouchThing', 'touch', sigs=['', 'name,tags,count', 'name,count', 'vals']),
         m('PlainThing', 'plain'),
